@@ -10,6 +10,9 @@ pub enum Op {
     Insert(u16),
     Delete(u16),
     Union(Vec<u16>),
+    /// like Union, but the first `.1` successfully inserted keys are deleted again from the operand
+    /// before the union (cuckoo: leaves holes in its buckets)
+    UnionDel(Vec<u16>, u8),
 }
 
 #[derive(Clone, Debug, Serialize, Deserialize)]
@@ -85,10 +88,17 @@ fn sig_part(d: &str) -> &'static str {
     }
 }
 
-fn build_other(c: &Case, uni: &[u64], keys: &[u16]) -> AnyFilter {
+fn build_other(c: &Case, uni: &[u64], keys: &[u16], del: u8) -> AnyFilter {
     let mut other = AnyFilter::new(&c.cfg, c.hk, &c.rng2);
+    let mut inserted = vec![];
     for i in keys {
-        let _ = other.insert(uni[idx(*i, uni.len())]);
+        let k = uni[idx(*i, uni.len())];
+        if other.insert(k).is_ok() {
+            inserted.push(k);
+        }
+    }
+    for &k in inserted.iter().take(del as usize) {
+        let _ = other.delete(k);
     }
     other
 }
@@ -98,7 +108,11 @@ fn apply(f: &mut AnyFilter, c: &Case, uni: &[u64], op: &Op) -> (Option<Result<bo
         Op::Insert(i) => (Some(f.insert(uni[idx(*i, uni.len())])), None, None),
         Op::Delete(i) => (None, f.delete(uni[idx(*i, uni.len())]), None),
         Op::Union(keys) => {
-            let other = build_other(c, uni, keys);
+            let other = build_other(c, uni, keys, 0);
+            (None, None, Some(f.union(&other)))
+        }
+        Op::UnionDel(keys, del) => {
+            let other = build_other(c, uni, keys, *del);
             (None, None, Some(f.union(&other)))
         }
     }
@@ -144,8 +158,13 @@ impl Check for C12 {
                 Op::Delete(i) => {
                     let _ = f.delete(uni[idx(*i, uni.len())]);
                 }
-                Op::Union(keys) => {
-                    let other = build_other(c, &uni, keys);
+                Op::Union(..) | Op::UnionDel(..) => {
+                    let (keys, del) = match op {
+                        Op::Union(k) => (k, 0u8),
+                        Op::UnionDel(k, d) => (k, *d),
+                        _ => unreachable!(),
+                    };
+                    let other = build_other(c, &uni, keys, del);
                     let osnap = snapshot(&other, &probe, &uni, true);
                     let res = f.union(&other);
                     let osnap2 = snapshot(&other, &probe, &uni, true);
@@ -237,7 +256,8 @@ fn strategy(tier: Tier) -> BoxedStrategy<Case> {
             prop_oneof![
                 8 => any::<u16>().prop_map(Op::Insert),
                 1 => any::<u16>().prop_map(Op::Delete),
-                3 => prop::collection::vec(any::<u16>(), 0..16).prop_map(Op::Union),
+                2 => prop::collection::vec(any::<u16>(), 0..16).prop_map(Op::Union),
+                1 => (prop::collection::vec(any::<u16>(), 0..16), 1u8..8).prop_map(|(k, d)| Op::UnionDel(k, d)),
             ],
             0..maxops,
         ),
